@@ -132,6 +132,13 @@ def modelStep (w : World) (ws : List String) : World × String :=
     match w.leader with
     | some _ => bad
     | none => ({ w with leader := some { hist := HistoryBuf.new (capOf (natArg c)) none flushC }, lcap := natArg c }, "ok")
+  | ["keepalive"] =>
+    -- RunServer's ticker: `{StartIndex: next index}` without regions to every bound stream
+    match w.leader with
+    | none => bad
+    | some l =>
+      let alive : Msg := { start := l.hist.index, regions := [], stats := [], leaders := [] }
+      ({ w with followers := mapFollowers w.followers (fun f => applyMsg f alive) (·.connected) }, "ok")
   | ["lrestart"] =>
     match w.leader with
     | none => bad
@@ -377,6 +384,8 @@ def monitor (m : Mon) (ws : List String) (impl : String) : Mon × List String :=
       ({ m with cap := cap, log := { log := [], next := n } }, fails)
     | none => (m, [])
   | ["follower", _] | ["follower", _, "plain"] => (if impl == "ok" then { m with fs := m.fs ++ [{}] } else m, [])
+  | ["keepalive"] =>
+    (if impl == "ok" then { m with fs := m.fs.map (fun x => if x.connected then { x with next := m.lnext.orElse (fun _ => x.next) } else x) } else m, [])
   | ["lrestart"] =>
     match natField impl "lnext" with
     | some n =>
